@@ -97,9 +97,16 @@ func (m *MemoryTableSource) encodeRow(row map[string]any) []any {
 // []any tuple.
 func encodeKey(key any) string {
 	if vals, ok := key.([]any); ok {
+		if len(vals) == 1 {
+			// A one-column key is the same key whether passed bare or as a 1-tuple.
+			return encodeOne(vals[0])
+		}
 		parts := make([]string, len(vals))
 		for i, v := range vals {
-			parts[i] = encodeOne(v)
+			// Length-prefix each component so a value containing the separator cannot
+			// make two different tuples collide.
+			p := encodeOne(v)
+			parts[i] = strconv.Itoa(len(p)) + ":" + p
 		}
 		return strings.Join(parts, "\x1f")
 	}
@@ -141,11 +148,19 @@ func numericKeyFloat(v any) (float64, bool) {
 		return float64(x), true
 	case int32:
 		return float64(x), true
+	case int16:
+		return float64(x), true
+	case int8:
+		return float64(x), true
 	case uint:
 		return float64(x), true
 	case uint64:
 		return float64(x), true
 	case uint32:
+		return float64(x), true
+	case uint16:
+		return float64(x), true
+	case uint8:
 		return float64(x), true
 	}
 	return 0, false
